@@ -138,7 +138,14 @@ class Interval(Duration, Generic[_T]):
 
         delta: timedelta = _end - _start
 
-        return super().__new__(cls, seconds=delta.total_seconds())
+        # Hand over the exact length: total_seconds() is a float
+        # and loses the microseconds of intervals beyond ~285 years.
+        return super().__new__(
+            cls,
+            days=delta.days,
+            seconds=delta.seconds,
+            microseconds=delta.microseconds,
+        )
 
     def __init__(self, start: _T, end: _T, absolute: bool = False) -> None:
         super().__init__()
